@@ -250,7 +250,7 @@ def check_large(ctx, n):
 
 def oracle(ctx, deep):
     ctx.searched = ("full 2^32 raw-word sweep of the real bounded draw for bounds %s and the powers of two %s; for bounds above 2^31 (%s) a boundary-heavy probe for two raw "
-                    "words selecting one alternative followed by a full count of that alternative; structural checks on every correspondence case" % (SWEEP_BOUNDS, POW2_BOUNDS, LARGE_BOUNDS))
+                    "words selecting one alternative followed by a full count of that alternative; structural rules on every fault-free draw case, from the statement alone: whole 32-bit words consumed; after rejected words the same draw on the remaining tape returns the same alternative from one word; the same bytes delivered 1-4 per read give the same result" % (SWEEP_BOUNDS, POW2_BOUNDS, LARGE_BOUNDS))
     # cheap structural checks on every run: range; a rejected word is followed by a fresh decision
     for meta, a, b in getattr(ctx, "draw_results", []):
         if a is None or not a.startswith("ok "):
